@@ -471,8 +471,8 @@ Definition item_names (l : list item) : list N := flat_map item_names1 l.
 (* the whole front end on the abstract document *)
 Inductive presult := POk (out : list item) (log : list (defmode * nat * list nat * list nat))
                    | PErr | POutOfFuel.
-Definition parse (x : xnode) : presult :=
-  match build x with
+Definition parse_of (b : bstate * outcome snode) : presult :=
+  match b with
   | (_, OOk s) =>
       match convert (prepass s) with
       | Done out c => POk out (ca_log c)
@@ -481,3 +481,4 @@ Definition parse (x : xnode) : presult :=
   | (_, OErr _) => PErr
   | (_, OOut) => POutOfFuel
   end.
+Definition parse (x : xnode) : presult := parse_of (build x).
